@@ -85,6 +85,22 @@ def gap_scans(draw, table):
     return "+".join(out[:4])
 
 
+def text_safe(table, draw):
+    """variant of a table for programs that may scan the header row: every column is
+    presented to the program generator as a word column (so no numeric function ever sees
+    header text), and the header row may recur as a data record"""
+    import copy
+    t = copy.deepcopy(table)
+    for c in t["cols"]:
+        if c["type"] != "id":
+            c["type"] = "word"
+    hp = hdr_pos(t)
+    if draw(st.integers(0, 2)) != 1 and len(t["records"]) > hp + 1:
+        at = draw(st.integers(hp + 1, len(t["records"])))
+        t["records"].insert(at, list(t["records"][hp]))
+    return t
+
+
 def hdr_pos(table):
     for i, r in enumerate(table["records"]):
         if r:
@@ -183,7 +199,7 @@ def expr_n(draw, env, depth, intonly=False):
     if k == "var":
         return ["v", draw(st.sampled_from(nvars))]
     if k == "counter":
-        return ["f", draw(st.sampled_from(["count_lines", "count_scans", "line_number", "total_lines",
+        return ["f", draw(st.sampled_from(["count_lines", "count_lines", "count_scans", "line_number", "total_lines",
                                             "count_headers", "count_headers_in_line"])), [], []]
     if k == "length":
         return ["f", "length", [], [expr_s(draw, env, depth - 1)]]
